@@ -1,5 +1,5 @@
 //! C01 — transaction wire format: compact-size integer kernels and outpoint codec.
-use crate::{cov, ReplaySrc, Src};
+use crate::{cov, okf, ReplaySrc, Src};
 use bsv::{TxIn, VarInt, VarIntReader, VarIntWriter};
 use std::io::Cursor;
 
@@ -148,8 +148,8 @@ pub fn varint_read_any<S: Src>(s: &mut S) {
 /// all 36-byte strings; vout is little-endian; prev_tx_id kept reversed.
 pub fn outpoint_roundtrip<S: Src>(s: &mut S) {
     let o: [u8; 36] = s.bytes::<36>();
-    let txin = TxIn::from_outpoint_bytes(&o);
-    assert!(txin.is_ok(), "36-byte outpoint rejected");
+    let txin = okf(TxIn::from_outpoint_bytes(&o));
+    assert!(txin.is_some(), "36-byte outpoint rejected");
     let txin = txin.unwrap();
     let vout = (o[32] as u32) | (o[33] as u32) << 8 | (o[34] as u32) << 16 | (o[35] as u32) << 24;
     assert!(txin.get_vout() == vout, "vout not little-endian");
